@@ -43,7 +43,7 @@ GEN = {
             "minlength/maxlength/length on string fields with N in {0,1,2,3,5,10}; values: strings of N-1, N, N+1 code points made of 1-, 2-, 3-, 4-byte runes and invalid bytes, mixed tails, byte-length-N strings with fewer code points; string fields also declared through an alias and a named type"),
     "C04": ("c04", "", "Gvlean.Props.C04", ["Props.c04", "Props.c04_meaning", "Props.c04_guard"], ["spec", "gen_fail", "build"],
             "minitems/maxitems on []string, []int, []byte (ASCII and multi-byte content), [3]int, [1]string, map[string]int, chan int and named types over them; lengths 0..N+2, nil vs empty, channels with k buffered elements; every collection type also declared through an alias"),
-    "C05": ("c05", "", "Gvlean.Props.C05", ["Props.c05", "Props.c05_zero_not_special", "Props.c05_item_forms", "Props.c05_numeric"], ["spec", "gen_fail", "build"],
+    "C05": ("c05", "", "Gvlean.Props.C05", ["Props.c05", "Props.c05_zero_not_special", "Props.c05_item_forms", "Props.c05_numeric", "Props.c05_float", "Props.c05_float_nan"], ["spec", "gen_fail", "build"],
             "enum lists of 1..8 items (duplicates, padded items, non-ASCII) on string, every integer kind, float32/64 and named types; values: every item, case changes, prefixes, +-1, padded forms, the zero value"),
     "C06": ("c06", "", "Gvlean.Props.C06", ["Props.c06", "Props.c06_languages", "Props.c06_alpha", "Props.c06_numeric"], ["spec", "gen_fail", "build"],
             "the seven format markers on string fields, top level and nested; values: member / non-member corpora per language (incl. the seeded-change triggers: DEL in local part, U+0161, '{' host, control byte in UUID, Latin-1 bytes); fields also declared through an alias of string"),
